@@ -4821,8 +4821,12 @@ class Choose(Array):
     def _take(self, index, axis):
         return Choose(_take(self.index, index, axis), _take(self.choices, index, axis))
 
-    def _takediag(self, axis, rmaxis):
-        return Choose(takediag(self.index, axis, rmaxis), takediag(self.choices, axis, rmaxis))
+    def _takediag(self, axis1, axis2):
+        # NOTE: the diagonal goes to the end of index, and is to be followed by
+        # the axis of choices.
+        index = _takediag(self.index, axis1, axis2)
+        choices = Transpose.to_end(_takediag(self.choices, axis1, axis2), self.ndim-2)
+        return Choose(index, choices)
 
     def _product(self):
         unaligned, where = unalign(self.index)
